@@ -250,7 +250,7 @@ class Evaluator:
         _REPO[0] = repo
         self.fi = fi
         self.mi: ModuleInfo = fi.module
-        self.inline = inline
+        self.inline = _with_new_helpers(repo, fi, inline)
         self.inline_depth = inline_depth
         self.res = Result()
         self.env = Env()
@@ -353,7 +353,7 @@ class Evaluator:
         if self.props is not None and base == n("self") and isinstance(e.ctx, ast.Load):
             getter = self.props(e.attr)
             if getter is not None and self.inline_depth > 0:
-                sub = Evaluator(self.repo, getter, inline=self.inline,
+                sub = Evaluator(self.repo, getter, inline=getattr(self.inline, "_custom", None),
                                 inline_depth=self.inline_depth - 1,
                                 bindings={"self": n("self")})
                 sub.env.heap.update(self.env.heap)
@@ -535,7 +535,7 @@ class Evaluator:
             self.res.calls.append((t, e, self.cond))
             return t
         self.res.calls.append((t, e, self.cond))
-        if self.inline is not None and self.inline_depth > 0:
+        if self.inline is not None:
             r = self.inline(self, t, e)
             if r is not None:
                 return r
@@ -962,9 +962,46 @@ def unwrap_callable(t: Term) -> Term:
     return t
 
 
+_BASELINE: set[str] | None = None
+
+
+def baseline_functions() -> set[str]:
+    """Functions the rules were written against (lsa/baseline_functions.txt).  A function
+    that is NOT in this list did not exist then: no rule can be asking about it by name, so
+    a call to it is read through (inlined) wherever a rule interprets its caller -- an
+    "extract helper" refactor is transparent, and a helper that changes behaviour is
+    judged by what it does."""
+    global _BASELINE
+    if _BASELINE is None:
+        import os
+        p = os.path.join(os.path.dirname(os.path.dirname(os.path.abspath(__file__))),
+                         "baseline_functions.txt")
+        with open(p) as fh:
+            _BASELINE = {l.strip() for l in fh if l.strip()}
+    return _BASELINE
+
+
+def _with_new_helpers(repo: Repo, fi: FunctionInfo, custom):
+    base = baseline_functions()
+    new = make_inliner(repo, self_class=fi.cls, keep_depth=True,
+                       allow=lambda f: f.qualname not in base and "<locals>" not in f.qualname
+                       and "property" not in f.decorators())
+
+    def composed(ev, t, node):
+        if custom is not None and ev.inline_depth > 0:
+            r = custom(ev, t, node)
+            if r is not None:
+                return r
+        if len(getattr(ev, "_new_chain", ())) < 4:
+            return new(ev, t, node)
+        return None
+    composed._custom = custom
+    return composed
+
+
 def make_inliner(repo: Repo, targets: dict[str, FunctionInfo] | None = None,
                  self_class=None, allow: Callable[[FunctionInfo], bool] | None = None,
-                 field_table: dict[str, FunctionInfo] | None = None):
+                 field_table: dict[str, FunctionInfo] | None = None, keep_depth: bool = False):
     """
     Inline calls to liesel functions: ``self.m(...)`` via the MRO of ``self_class``
     and resolved module-level functions.  Only single-return-term callees are
@@ -998,8 +1035,15 @@ def make_inliner(repo: Repo, targets: dict[str, FunctionInfo] | None = None,
         if skip_self:
             b["self"] = n("self")
         closure = dict(ev.env.vars) if f[0] == "fn" else None
-        sub = Evaluator(repo, callee, inline=inliner, inline_depth=ev.inline_depth - 1,
-                        bindings=b, closure=closure)
+        if keep_depth:
+            # reading through a NEW helper costs the rule nothing of its own inlining budget;
+            # the helper's callees are seen by the caller's own (custom) inliner
+            sub = Evaluator(repo, callee, inline=getattr(ev.inline, "_custom", None),
+                            inline_depth=ev.inline_depth, bindings=b, closure=closure)
+            sub._new_chain = getattr(ev, "_new_chain", ()) + (callee.qualname,)
+        else:
+            sub = Evaluator(repo, callee, inline=inliner, inline_depth=ev.inline_depth - 1,
+                            bindings=b, closure=closure)
         sub.env.heap.update(ev.env.heap)
         sub.cond = ev.cond
         sub.fresh = ev.fresh
